@@ -17,7 +17,7 @@ from measured import Dimension, Prefix, Unit
 
 from .common import BaseContext
 
-LEVEL_TEXT = 'eval_canonical: in every reachable state, two unit expressions with the same denotation in (prefix group) x (free abelian group over base units) evaluate to the same intern-table index, with arbitrary histories before and between the evaluations; the eight group laws are proved as denotation equalities and therefore hold up to object identity; dimensions and same-base prefixes are proved abelian groups as values (the value is the object). `Reachable' includes histories with QUERIES: after any history of conversions, comparisons, arithmetic and unit operations about existing units - whatever they returned or raised - GInv and Canon hold again (queries_good, Proofs/Kept.lean), so the identity theorem applies in those states as well. Hypotheses (GInv, Canon) are discharged for the shipped registries on every run by decide +kernel. Tied to the code by differential execution of random expression trees and explicit law instances, and by an independent normal-form oracle that demands `is`-identity on the real library.'
+LEVEL_TEXT = 'eval_canonical: in every reachable state, two unit expressions with the same denotation in (prefix group) x (free abelian group over base units) evaluate to the same intern-table index, with arbitrary histories before and between the evaluations; the eight group laws are proved as denotation equalities and therefore hold up to object identity; dimensions and same-base prefixes are proved abelian groups as values (the value is the object). Reachable states include those after histories with QUERIES: after any history of conversions, comparisons, arithmetic and unit operations about existing units - whatever they returned or raised - GInv and Canon hold again (queries_good, Proofs/Kept.lean), so the identity theorem applies in those states as well. Hypotheses (GInv, Canon) are discharged for the shipped registries on every run by decide +kernel. Tied to the code by differential execution of random expression trees and explicit law instances, and by an independent normal-form oracle that demands `is`-identity on the real library.'
 LEVEL_NOTE = "Trusted: Lean kernel (+ Mathlib.Data.List.Nodup lemmas), translator, harness. Python's id()-sort is modelled by ordinal sort (any injective total order yields the same canonical key). Cross-base (SI x IEC) prefix products have float exponents: identity is not claimed for them, only the numeric law within 1e-9, checked on the implementation."
 TECHNIQUE = 'Lean 4 proof of canonical-form/identity theorem over the intern-table model + decide +kernel obligation on regenerated registries + differential correspondence'
 
